@@ -17,17 +17,17 @@ open MjProof MjProof.Gen MjProof.Spatial
 theorem mulQuat_assoc (a b c : Quat) : mulQuat (mulQuat a b) c = mulQuat a (mulQuat b c) := by
   obtain ⟨a0, a1, a2, a3⟩ := a; obtain ⟨b0, b1, b2, b3⟩ := b; obtain ⟨c0, c1, c2, c3⟩ := c
   simp only [mulQuat, mju_mulQuat_eq, Prod.mk.injEq]
-  refine ⟨?_, ?_, ?_, ?_⟩ <;> ring
+  tuple_ring
 
 theorem mulQuat_one_left (q : Quat) : mulQuat quatOne q = q := by
   obtain ⟨q0, q1, q2, q3⟩ := q
   simp only [mulQuat, quatOne, mju_mulQuat_eq, Prod.mk.injEq]
-  refine ⟨?_, ?_, ?_, ?_⟩ <;> ring
+  tuple_ring
 
 theorem mulQuat_one_right (q : Quat) : mulQuat q quatOne = q := by
   obtain ⟨q0, q1, q2, q3⟩ := q
   simp only [mulQuat, quatOne, mju_mulQuat_eq, Prod.mk.injEq]
-  refine ⟨?_, ?_, ?_, ?_⟩ <;> ring
+  tuple_ring
 
 /-- |ab|² = |a|²|b|² for all quaternions (unit quaternions are closed under the product) -/
 theorem mulQuat_normSq (a b : Quat) : normSq4 (mulQuat a b) = normSq4 a * normSq4 b := by
@@ -45,7 +45,7 @@ theorem mulQuat_negQuat (q : Quat) :
     mulQuat q (negQuat q) = (normSq4 q, 0, 0, 0) ∧ mulQuat (negQuat q) q = (normSq4 q, 0, 0, 0) := by
   obtain ⟨q0, q1, q2, q3⟩ := q
   simp only [mulQuat, negQuat, mju_mulQuat_eq, mju_negQuat_eq, normSq4, Prod.mk.injEq]
-  refine ⟨⟨?_, ?_, ?_, ?_⟩, ⟨?_, ?_, ?_, ?_⟩⟩ <;> ring
+  tuple_ring
 
 /-- `mju_negQuat` is the inverse on unit quaternions -/
 theorem negQuat_inverse (q : Quat) (h : normSq4 q = 1) :
@@ -59,14 +59,14 @@ example : normSq4 ((3/5 : ℝ), (4/5 : ℝ), (0 : ℝ), (0 : ℝ)) = 1 := by sim
 theorem negQuat_mulQuat (a b : Quat) : negQuat (mulQuat a b) = mulQuat (negQuat b) (negQuat a) := by
   obtain ⟨a0, a1, a2, a3⟩ := a; obtain ⟨b0, b1, b2, b3⟩ := b
   simp only [mulQuat, negQuat, mju_mulQuat_eq, mju_negQuat_eq, Prod.mk.injEq]
-  refine ⟨?_, ?_, ?_, ?_⟩ <;> ring
+  tuple_ring
 
 /-- `mju_mulQuatAxis q x` is the product of `q` with the pure quaternion `(0, x)` -/
 theorem mulQuatAxis_eq_mulQuat (q : Quat) (x : Vec3) :
     mulQuatAxis q x = mulQuat q (0, x.1, x.2.1, x.2.2) := by
   obtain ⟨q0, q1, q2, q3⟩ := q; obtain ⟨x0, x1, x2⟩ := x
   simp only [mulQuatAxis, mulQuat, mju_mulQuatAxis, mju_mulQuat_eq, Prod.mk.injEq]
-  refine ⟨?_, ?_, ?_, ?_⟩ <;> ring
+  tuple_ring
 
 /-- `mju_derivQuat q w` = ½ · (0, w) · q  (time derivative of q for an angular velocity w in the parent frame) -/
 theorem derivQuat_eq_half_mulQuat (q : Quat) (w : Vec3) :
@@ -74,20 +74,20 @@ theorem derivQuat_eq_half_mulQuat (q : Quat) (w : Vec3) :
       (1/2) * (mulQuat (0, w.1, w.2.1, w.2.2) q).2.2.1, (1/2) * (mulQuat (0, w.1, w.2.1, w.2.2) q).2.2.2) := by
   obtain ⟨q0, q1, q2, q3⟩ := q; obtain ⟨w0, w1, w2⟩ := w
   simp only [derivQuat, mulQuat, mju_derivQuat, mju_mulQuat_eq, ofSci_half, Prod.mk.injEq]
-  refine ⟨?_, ?_, ?_, ?_⟩ <;> ring
+  tuple_ring
 
 /-! ### rotation of vectors -/
 
 theorem rotVecQuat_one (v : Vec3) : rotVecQuat v quatOne = v := by
   obtain ⟨v0, v1, v2⟩ := v
   simp only [rotVecQuat, quatOne, mju_rotVecQuat_eq, rotF, Prod.mk.injEq]
-  refine ⟨?_, ?_, ?_⟩ <;> ring
+  tuple_ring
 
 /-- q and −q are the same rotation (double cover) -/
 theorem rotVecQuat_quatNeg (v : Vec3) (q : Quat) : rotVecQuat v (quatNeg q) = rotVecQuat v q := by
   obtain ⟨v0, v1, v2⟩ := v; obtain ⟨q0, q1, q2, q3⟩ := q
   simp only [rotVecQuat, quatNeg, mju_rotVecQuat_eq, rotF, Prod.mk.injEq]
-  refine ⟨?_, ?_, ?_⟩ <;> ring
+  tuple_ring
 
 /-- rotation by a unit quaternion preserves the Euclidean norm -/
 theorem rotVecQuat_normSq (v : Vec3) (q : Quat) (h : normSq4 q = 1) :
@@ -107,7 +107,7 @@ theorem rotVecQuat_eq_quat2Mat_homogeneous (v : Vec3) (q : Quat) :
   obtain ⟨v0, v1, v2⟩ := v; obtain ⟨q0, q1, q2, q3⟩ := q
   simp only [rotVecQuat, mulMatVec3, quat2Mat, mju_rotVecQuat_eq, mju_quat2Mat_eq, mju_mulMatVec3_eq,
     rotF, matF, normSq4, Prod.mk.injEq]
-  refine ⟨?_, ?_, ?_⟩ <;> ring
+  tuple_ring
 
 /-- `mju_rotVecQuat` agrees with the rotation matrix of `mju_quat2Mat` on unit quaternions -/
 theorem rotVecQuat_eq_quat2Mat_mulVec (v : Vec3) (q : Quat) (h : normSq4 q = 1) :
@@ -144,7 +144,7 @@ theorem quat2Mat_one : quat2Mat quatOne = matOne := by
 theorem quat2Mat_mulQuat (a b : Quat) : quat2Mat (mulQuat a b) = matMul (quat2Mat a) (quat2Mat b) := by
   obtain ⟨a0, a1, a2, a3⟩ := a; obtain ⟨b0, b1, b2, b3⟩ := b
   simp only [quat2Mat, mulQuat, mju_quat2Mat_eq, mju_mulQuat_eq, matF, matMul, Prod.mk.injEq]
-  refine ⟨?_, ?_, ?_, ?_, ?_, ?_, ?_, ?_, ?_⟩ <;> ring
+  tuple_ring
 
 /-- M Mᵀ = Mᵀ M = |q|⁴ I for every quaternion -/
 theorem quat2Mat_mul_transpose (q : Quat) :
@@ -152,7 +152,7 @@ theorem quat2Mat_mul_transpose (q : Quat) :
     matMul (matT (quat2Mat q)) (quat2Mat q) = matScale (normSq4 q ^ 2) matOne := by
   obtain ⟨q0, q1, q2, q3⟩ := q
   simp only [quat2Mat, mju_quat2Mat_eq, matF, matMul, matT, matScale, matOne, normSq4, Prod.mk.injEq]
-  refine ⟨⟨?_, ?_, ?_, ?_, ?_, ?_, ?_, ?_, ?_⟩, ⟨?_, ?_, ?_, ?_, ?_, ?_, ?_, ?_, ?_⟩⟩ <;> ring
+  tuple_ring
 
 /-- the matrix of a unit quaternion is orthogonal -/
 theorem quat2Mat_orthogonal (q : Quat) (h : normSq4 q = 1) :
@@ -175,7 +175,7 @@ theorem quat2Mat_det (q : Quat) (h : normSq4 q = 1) : matDet (quat2Mat q) = 1 :=
 theorem quat2Mat_negQuat (q : Quat) : quat2Mat (negQuat q) = matT (quat2Mat q) := by
   obtain ⟨q0, q1, q2, q3⟩ := q
   simp only [quat2Mat, negQuat, mju_quat2Mat_eq, mju_negQuat_eq, matF, matT, Prod.mk.injEq]
-  refine ⟨?_, ?_, ?_, ?_, ?_, ?_, ?_, ?_, ?_⟩ <;> ring
+  tuple_ring
 
 /-- `mju_mulMatTVec3` with the matrix of a unit quaternion is the inverse rotation -/
 theorem mulMatTVec3_quat2Mat (v : Vec3) (q : Quat) (h : normSq4 q = 1) :
@@ -185,7 +185,7 @@ theorem mulMatTVec3_quat2Mat (v : Vec3) (q : Quat) (h : normSq4 q = 1) :
   obtain ⟨v0, v1, v2⟩ := v; obtain ⟨q0, q1, q2, q3⟩ := q
   simp only [mulMatTVec3, mulMatVec3, quat2Mat, negQuat, mju_quat2Mat_eq, mju_negQuat_eq,
     mju_mulMatVec3_eq, mju_mulMatTVec3_eq, matF, Prod.mk.injEq]
-  refine ⟨?_, ?_, ?_⟩ <;> ring
+  tuple_ring
 
 /-! ### axis-angle -/
 
@@ -205,7 +205,7 @@ theorem rotVecQuat_axisAngle2Quat_axis (axis : Vec3) (angle : ℝ) :
     rotVecQuat axis (axisAngle2Quat axis angle) = axis := by
   obtain ⟨x0, x1, x2⟩ := axis
   simp only [rotVecQuat, axisAngle2Quat, mju_axisAngle2Quat_eq, mju_rotVecQuat_eq, rotF, Prod.mk.injEq]
-  refine ⟨?_, ?_, ?_⟩ <;> ring
+  tuple_ring
 
 /-- angles add for rotations about a common unit axis:
     `axisAngle2Quat x s * axisAngle2Quat x t = axisAngle2Quat x (s + t)` -/
@@ -314,7 +314,7 @@ theorem quatIntegrate_zero_scale (q : Quat) (vel : Vec3) (h : normSq4 q = 1) :
   obtain ⟨q0, q1, q2, q3⟩ := q
   simp only [mulQuat, axisAngle2Quat, mju_axisAngle2Quat_eq, mju_mulQuat_eq, zero_mul, Real.cos_zero,
     Real.sin_zero, Prod.mk.injEq]
-  refine ⟨?_, ?_, ?_, ?_⟩ <;> ring
+  tuple_ring
 
 /-! ### poses (position, unit quaternion): a group acting on vectors -/
 
@@ -363,7 +363,7 @@ theorem mulPose_one_right (P : Pose) (h : normSq4 (poseQuat P) = 1) : mulPose P 
   have e3 : rotVecQuat (0, 0, 0) (poseQuat P) = (0, 0, 0) := by
     obtain ⟨p0, p1, p2, q0, q1, q2, q3⟩ := P
     simp only [rotVecQuat, poseQuat, mju_rotVecQuat_eq, rotF, Prod.mk.injEq]
-    refine ⟨?_, ?_, ?_⟩ <;> ring
+    tuple_ring
   rw [e1, e2, e3, zero_vadd3, mulQuat_one_right]
   rfl
 
@@ -516,6 +516,6 @@ theorem quat2Mat_mat2Quat_quat2Mat (q : Quat) (hq : normSq4 q = 1) :
   · rw [e]
     obtain ⟨q0, q1, q2, q3⟩ := q
     simp only [quat2Mat, quatNeg, mju_quat2Mat_eq, matF, Prod.mk.injEq]
-    refine ⟨?_, ?_, ?_, ?_, ?_, ?_, ?_, ?_, ?_⟩ <;> ring
+    tuple_ring
 
 end MjProof.C24
